@@ -25,6 +25,32 @@ pub trait Engine: Sync + Send {
     fn eval(&self, bytes: &[u8], trace: bool) -> Eval;
 }
 
+/// Several engines behind one property: the first byte of a case selects the
+/// engine (by weight), the rest is that engine's input.
+pub struct MultiEngine {
+    pub parts: Vec<(u32, Arc<dyn Engine>)>,
+    pub name: &'static str,
+}
+
+impl Engine for MultiEngine {
+    fn name(&self) -> &'static str {
+        self.name
+    }
+    fn eval(&self, bytes: &[u8], trace: bool) -> Eval {
+        let total: u32 = self.parts.iter().map(|p| p.0).sum();
+        let b = bytes.first().cloned().unwrap_or(0) as u32;
+        let mut r = (b * total) >> 8;
+        let rest = if bytes.is_empty() { bytes } else { &bytes[1..] };
+        for (w, e) in &self.parts {
+            if r < *w {
+                return e.eval(rest, trace);
+            }
+            r -= *w;
+        }
+        self.parts.last().unwrap().1.eval(rest, trace)
+    }
+}
+
 pub fn hash_of<T: Hash>(t: &T) -> u64 {
     let mut h = std::collections::hash_map::DefaultHasher::new();
     t.hash(&mut h);
@@ -51,6 +77,7 @@ pub struct Stats {
     pub samples: Vec<String>,
     pub other_signals: BTreeMap<&'static str, u64>,
     pub other_examples: BTreeMap<&'static str, String>,
+    pub regress_cases: u64,
 }
 
 pub struct Failure {
@@ -396,6 +423,24 @@ pub fn write_replay(dir: &str, prop: &str, engine: &str, f: &Failure) -> String 
     path
 }
 
+pub fn write_regress_replay(dir: &str, prop: &str, name: &str, f: &Failure) -> String {
+    let _ = std::fs::create_dir_all(dir);
+    let path = format!("{}/{}-{}-regress-{}.json", dir, prop, config_name(), name.replace(|c: char| !c.is_ascii_alphanumeric() && c != '-', "_"));
+    let msgs: Vec<String> = f.messages.iter().map(|m| jstr(m)).collect();
+    let trace: Vec<String> = f.trace.iter().map(|m| jstr(m)).collect();
+    let body = format!(
+        "{{\n \"property\": {},\n \"config\": {},\n \"engine\": \"regress\",\n \"regress\": {},\n \"case\": {},\n \"violations\": [{}],\n \"trace\": [\n  {}\n ]\n}}\n",
+        jstr(prop),
+        jstr(config_name()),
+        jstr(name),
+        jstr(&f.show),
+        msgs.join(", "),
+        trace.join(",\n  ")
+    );
+    let _ = std::fs::write(&path, body);
+    path
+}
+
 pub fn fragment_json(prop: &str, tier: &str, seed: u64, engine: &str, rule: &str, r: &RunResult, wall: f64, replay: Option<&str>) -> String {
     let s = &r.stats;
     let labels: Vec<String> = s.labels.iter().map(|(k, v)| format!("{}: {}", jstr(k), v)).collect();
@@ -404,14 +449,15 @@ pub fn fragment_json(prop: &str, tier: &str, seed: u64, engine: &str, rule: &str
     let other_ex: Vec<String> = s.other_examples.iter().map(|(k, v)| format!("{}: {}", jstr(k), jstr(v))).collect();
     let samples: Vec<String> = s.samples.iter().map(|x| jstr(x)).collect();
     format!(
-        "{{\"property_id\": {}, \"tier\": {}, \"seed\": {}, \"config\": {}, \"engine\": {}, \"rule\": {}, \"evaluations\": {}, \"nontrivial_evaluations\": {}, \"distinct_nontrivial\": {}, \"labels\": {{{}}}, \"inconclusive\": {{{}}}, \"other_property_signals\": {{{}}}, \"other_property_examples\": {{{}}}, \"samples\": [{}], \"violations\": {}, \"violation_messages\": [{}], \"replay\": {}, \"wall_s\": {:.3}}}\n",
+        "{{\"property_id\": {}, \"tier\": {}, \"seed\": {}, \"config\": {}, \"engine\": {}, \"rule\": {}, \"evaluations\": {}, \"regression_cases\": {}, \"nontrivial_evaluations\": {}, \"distinct_nontrivial\": {}, \"labels\": {{{}}}, \"inconclusive\": {{{}}}, \"other_property_signals\": {{{}}}, \"other_property_examples\": {{{}}}, \"samples\": [{}], \"violations\": {}, \"violation_messages\": [{}], \"replay\": {}, \"wall_s\": {:.3}}}\n",
         jstr(prop),
         jstr(tier),
         seed,
         jstr(config_name()),
         jstr(engine),
         jstr(rule),
-        s.evaluations,
+        s.evaluations + s.regress_cases,
+        s.regress_cases,
         s.nontrivial_evals,
         s.distinct.len(),
         labels.join(", "),
